@@ -210,7 +210,7 @@ def tpcds_inputs() -> list[dict]:
 
 def risky(g, tag: str) -> dict:
     """Shapes with several equal-rank candidates in one set."""
-    kind = g.choice(["unqualified_many", "wildcard_disjoint", "drop_rename_mix", "multi_rename", "many_tables", "many_targets", "consumption_variants", "consumption_variants", "repeated_target", "repeated_target", "anon_derived_star"])
+    kind = g.choice(["unqualified_many", "wildcard_disjoint", "drop_rename_mix", "multi_rename", "many_tables", "many_targets", "consumption_variants", "consumption_variants", "repeated_target", "repeated_target", "anon_derived_star", "column_ring", "column_ring"])
     meta = None
     dialect = g.choice(["ansi", "non-validating"])
     if kind == "unqualified_many":
@@ -246,6 +246,24 @@ def risky(g, tag: str) -> dict:
             y = g.choice([n for n in names + ["e", "f"] if n != x])
             pairs.append(f"{x} TO {y}")
         sql = ";\n".join(pre + ["RENAME TABLE " + ", ".join(pairs)])
+    elif kind == "column_ring":
+        # a directed ring of tables passing the same column on (a synchronisation loop), with feeds entering the ring
+        # at different tables and consumers leaving it at different tables: path enumeration has to cope with loops
+        n = g.choice([3, 3, 4, 5])
+        col = g.choice(["email", "k"])
+        ring = [f"m.r{i}" for i in range(n)]
+        stmts = []
+        feeds = g.sample(range(n), g.choice([2, 2, 3]) if n > 2 else 2)
+        for fi, at in enumerate(feeds):
+            stmts.append(f"INSERT INTO {ring[at]} SELECT {col} FROM m.feed{fi}")
+        for i in range(n):
+            stmts.append(f"INSERT INTO {ring[(i + 1) % n]} SELECT {col} FROM {ring[i]}")
+        for oi, at in enumerate(g.sample(range(n), g.choice([1, 1, 2]))):
+            stmts.append(f"INSERT INTO m.report{oi} SELECT {col} FROM {ring[at]}")
+        if g.random() < 0.5:
+            g.shuffle(stmts)
+        sql = ";\n".join(stmts)
+        dialect = g.choice(["ansi", "non-validating"])
     elif kind == "anon_derived_star":
         # SELECT * over derived tables WITHOUT alias (their names are generated) that share a column name
         n = g.choice([2, 2, 3])
